@@ -66,7 +66,14 @@ func loadFindings(path string) []knownFinding {
 				kf.Obligation = strings.TrimPrefix(f, "obligation=")
 			}
 		}
-		kf.Text = l
+		// the text printed after "KNOWN-FINDING: property=<id> " is the entry without its property= token
+		var rest []string
+		for _, f := range strings.Fields(l) {
+			if !strings.HasPrefix(f, "property=") {
+				rest = append(rest, f)
+			}
+		}
+		kf.Text = strings.Join(rest, " ")
 		out = append(out, kf)
 	}
 	return out
@@ -324,6 +331,10 @@ func runCheck(repo, verif, prop, tier string, seed int) int {
 				knownSeen[name] = true
 				fmt.Printf("KNOWN-FINDING: property=%s %s\n", prop, kf.Text)
 				known = append(known, name)
+				// a listed finding is reported, not counted among the obligations this run had to
+				// discharge (coverage.obligations == coverage.discharged for a proof-level record);
+				// it is listed under coverage.known_findings_seen
+				total--
 			}
 			continue
 		}
